@@ -50,7 +50,7 @@ func cases(tier string) int {
 	if tier == "thorough" {
 		return 800
 	}
-	return 192
+	return 256
 }
 
 const maxEnum = 48 // reads enumerated per case (more are counted as truncated)
